@@ -1,4 +1,6 @@
 (* C01/C02/C04/C07 families: the parser model run on the items the real lexer yielded.
+   The c02/c04 lines end with the model-only ghost field ` dropped=<n>` (tokens ty::parse popped and never
+   gave to the tree, known finding D3); the driver strips it before comparing.
    case line: <entry> <tl|-> <rl> <hex source> <items>     (the model reads entry, rl and items only)
    items: Kind.hexdata.index | !lex.hexdata.index | !limit.hexdata.index, comma separated, "-" if none *)
 open Model
@@ -93,6 +95,7 @@ let skind_name (k : skind) : string =
   | LIST_VALUE -> "LIST_VALUE"
   | OBJECT_VALUE -> "OBJECT_VALUE"
   | OBJECT_FIELD -> "OBJECT_FIELD"
+  | TYPE -> "TYPE"
   | NAMED_TYPE -> "NAMED_TYPE"
   | LIST_TYPE -> "LIST_TYPE"
   | NON_NULL_TYPE -> "NON_NULL_TYPE"
@@ -190,7 +193,8 @@ let c02_parse line =
   status o (fun () ->
     "ok leaves=" ^ (if o.pw_leaves = [] then "-" else
       String.concat "," (List.map (fun (k, t) -> skind_name k ^ ":" ^ hex_of_str t) o.pw_leaves))
-    ^ " range=0-" ^ string_of_int (int_of_n o.pw_range_end))
+    ^ " range=0-" ^ string_of_int (int_of_n o.pw_range_end)
+    ^ " dropped=" ^ string_of_int (int_of_n o.pw_dropped))
 
 let c04_parse line =
   let o = run_case line in
@@ -199,7 +203,8 @@ let c04_parse line =
       String.concat "," (List.map (fun (l, i) -> (if l then "l@" else "s@") ^ string_of_int (int_of_n i))
                            o.pw_errors))
     ^ " high=" ^ string_of_int (int_of_n o.pw_rec_high) ^ "," ^ string_of_int (int_of_n o.pw_tok_high)
-    ^ " tlen=" ^ string_of_int (int_of_n o.pw_range_end))
+    ^ " tlen=" ^ string_of_int (int_of_n o.pw_range_end)
+    ^ " dropped=" ^ string_of_int (int_of_n o.pw_dropped))
 
 let c07_parse line =
   let o = run_case line in
